@@ -595,7 +595,7 @@ func needSep(a, b string) bool {
 	return true
 }
 
-var commentWords = []string{"note", "TODO fix", "script Foo {", "\"quoted\"", "}", "if (flag(X)) {", "`", "end", "// nested", "# nested", "ポケモン", ""}
+var commentWords = []string{"note", "TODO fix", "script Foo {", "\"quoted\"", "}", "if (flag(X)) {", "`", "end", "// nested", "# nested", "ポケモン", "", "caf\uFFFD au lait", "\u2028x", "\uFEFF"}
 
 // Layout renders the lexemes to text, recording positions.
 func (p *Printed) Layout(o LayoutOpts) {
